@@ -206,24 +206,30 @@ theorem mulScalars_map (ms : List ℕ) (f g : ℕ → ℕ) :
   | cons q ms ih => simp only [List.map_cons, List.zip_cons_cons, List.zipWith_cons_cons, ih]
 
 /-- with the table of `newCombiner`, the vector loop is the scalar loop for every modulus; it does
-not hit a missing entry as long as every active point other than `own` was among `others`. -/
+not hit a missing entry as long as every active point other than `own` was among `others`, and
+does not report a collision as long as no active point other than `own` is congruent to `own`
+modulo a modulus. -/
 theorem lagrangeProd_newCombiner (r : RingQP) (own : ℕ) (others : List ℕ) (t : Int) (acts : List ℕ)
-    (hmem : ∀ a ∈ acts, a ≠ own → a ∈ others) (f : ℕ → ℕ) :
+    (hmem : ∀ a ∈ acts, a ≠ own → a ∈ others)
+    (hnc : ∀ a ∈ acts, a ≠ own → pointsCollide r.ms own a = false) (f : ℕ → ℕ) :
     lagrangeProd r.ms (newCombiner r own others t).table own acts (r.ms.map f) =
-      some (r.ms.map fun q => lagProdScalar q own acts (f q)) := by
+      .ok (r.ms.map fun q => lagProdScalar q own acts (f q)) := by
   induction acts generalizing f with
   | nil => simp [lagrangeProd, lagProdScalar]
   | cons a rest ih =>
     have ihr := ih (fun b hb => hmem b (List.mem_cons_of_mem _ hb))
+      (fun b hb => hnc b (List.mem_cons_of_mem _ hb))
     unfold lagrangeProd
     by_cases h : a ≠ own
     · rw [if_pos h]
+      have hc : pointsCollide r.ms own a = false := hnc a List.mem_cons_self h
+      rw [hc]
       have hl : (newCombiner r own others t).table.lookup a = some (r.ms.map fun q => lagrangeCoeff q own a) := by
         unfold newCombiner
         exact lookup_table own (fun spk => r.ms.map fun q => lagrangeCoeff q own spk) others a
           (hmem a List.mem_cons_self h) h
       rw [hl]
-      simp only
+      simp only [Bool.false_eq_true, if_false]
       rw [mulScalars_map, ihr]
       congr 1
       apply List.map_congr_left
@@ -234,6 +240,103 @@ theorem lagrangeProd_newCombiner (r : RingQP) (own : ℕ) (others : List ℕ) (t
       apply List.map_congr_left
       intro q _
       simp [lagProdScalar, h]
+
+/-- a colliding active point is reported as `err` if no table miss precedes it (in particular if
+there is no table miss at all). -/
+theorem lagrangeProd_collide_err (ms : List ℕ) (table : List (ℕ × List ℕ)) (own : ℕ) (acts : List ℕ)
+    (hm : ∀ a ∈ acts, a ≠ own → ∃ c, table.lookup a = some c)
+    (hc : ∃ a ∈ acts, a ≠ own ∧ pointsCollide ms own a = true) (prod : List ℕ) :
+    lagrangeProd ms table own acts prod = .err := by
+  induction acts generalizing prod with
+  | nil => obtain ⟨a, ha, _⟩ := hc; simp at ha
+  | cons x rest ih =>
+    unfold lagrangeProd
+    by_cases hx : x ≠ own
+    · rw [if_pos hx]
+      by_cases hcx : pointsCollide ms own x = true
+      · rw [if_pos hcx]
+      · rw [if_neg hcx]
+        obtain ⟨c, hcl⟩ := hm x List.mem_cons_self hx
+        rw [hcl]
+        simp only
+        apply ih (fun b hb => hm b (List.mem_cons_of_mem _ hb))
+        obtain ⟨a, ha, hne, hca⟩ := hc
+        rcases List.mem_cons.mp ha with h | h
+        · subst h; exact absurd hca hcx
+        · exact ⟨a, h, hne, hca⟩
+    · rw [if_neg hx]
+      apply ih (fun b hb => hm b (List.mem_cons_of_mem _ hb))
+      obtain ⟨a, ha, hne, hca⟩ := hc
+      rcases List.mem_cons.mp ha with h | h
+      · subst h; exact absurd hne hx
+      · exact ⟨a, h, hne, hca⟩
+
+/-- whatever the table: with a colliding active point the loop never produces a value. -/
+theorem lagrangeProd_collide_not_ok (ms : List ℕ) (table : List (ℕ × List ℕ)) (own : ℕ) (acts : List ℕ)
+    (hc : ∃ a ∈ acts, a ≠ own ∧ pointsCollide ms own a = true) (prod p : List ℕ) :
+    lagrangeProd ms table own acts prod ≠ .ok p := by
+  induction acts generalizing prod with
+  | nil => obtain ⟨a, ha, _⟩ := hc; simp at ha
+  | cons x rest ih =>
+    unfold lagrangeProd
+    by_cases hx : x ≠ own
+    · rw [if_pos hx]
+      by_cases hcx : pointsCollide ms own x = true
+      · rw [if_pos hcx]; simp
+      · rw [if_neg hcx]
+        cases table.lookup x with
+        | none => simp
+        | some c =>
+          simp only
+          apply ih
+          obtain ⟨a, ha, hne, hca⟩ := hc
+          rcases List.mem_cons.mp ha with h | h
+          · subst h; exact absurd hca hcx
+          · exact ⟨a, h, hne, hca⟩
+    · rw [if_neg hx]
+      apply ih
+      obtain ⟨a, ha, hne, hca⟩ := hc
+      rcases List.mem_cons.mp ha with h | h
+      · subst h; exact absurd hne hx
+      · exact ⟨a, h, hne, hca⟩
+
+/-- an `ok` result means: no table miss and no collision among the points gone through. -/
+theorem lagrangeProd_ok_inv (ms : List ℕ) (table : List (ℕ × List ℕ)) (own : ℕ) (acts : List ℕ)
+    (prod p : List ℕ) (h : lagrangeProd ms table own acts prod = .ok p) :
+    ∀ a ∈ acts, a ≠ own → (∃ c, table.lookup a = some c) ∧ pointsCollide ms own a = false := by
+  induction acts generalizing prod with
+  | nil => intro a ha; simp at ha
+  | cons x rest ih =>
+    unfold lagrangeProd at h
+    by_cases hx : x ≠ own
+    · rw [if_pos hx] at h
+      by_cases hcx : pointsCollide ms own x = true
+      · rw [if_pos hcx] at h; exact absurd h (by simp)
+      · rw [if_neg hcx] at h
+        cases hl : table.lookup x with
+        | none => rw [hl] at h; exact absurd h (by simp)
+        | some c =>
+          rw [hl] at h
+          simp only at h
+          intro a ha hne
+          rcases List.mem_cons.mp ha with h' | h'
+          · subst h'; exact ⟨⟨c, hl⟩, by simpa using hcx⟩
+          · exact ih _ h a h' hne
+    · rw [if_neg hx] at h
+      intro a ha hne
+      rcases List.mem_cons.mp ha with h' | h'
+      · subst h'; exact absurd hne hx
+      · exact ih _ h a h' hne
+
+/-- distinct residues ⇒ `pointsCollide` is false. -/
+theorem pointsCollide_false_of_distinct (ms : List ℕ) (S : List ℕ)
+    (hdist : ∀ q ∈ ms, DistinctMod q S) (a b : ℕ) (ha : a ∈ S) (hb : b ∈ S) (hne : a ≠ b) :
+    pointsCollide ms a b = false := by
+  unfold pointsCollide
+  rw [List.any_eq_false]
+  intro q hq hc
+  have heq : a % q = b % q := by simpa using hc
+  exact hne (List.inj_on_of_nodup_map (hdist q hq) ha hb heq)
 
 /-! ### ringqp level -/
 
